@@ -13,8 +13,9 @@ RULE = ("histories over one 2-column table with 0-3 stored rows (plain or gzip):
         "update, clear, commit, reload, reopen) on a stored 3-row table, plus random histories of up "
         "to 12 operations; after every operation len, iteration, 5 index probes, 6 slice probes, "
         "in_transaction, the physical form and the rows a fresh TestSuite reads are compared; "
-        "TestSuite.process with a stub processor for buffer sizes {0,1,2,3,5,1000} x gzip is checked by "
-        "the oracle. Non-trivial = history contains a length-changing assignment or a commit after an "
+        "TestSuite.process with a stub processor for buffer sizes {0,1,2,3,5,1000} x gzip x pre-stored rows x "
+        "pending rows: the rows _add_row received (recorded) are given to the model, which must predict the rows "
+        "in memory and on disk per relation, in_transaction and the number of commits. Non-trivial = history contains a length-changing assignment or a commit after an "
         "edit; distinct = canonical JSON.")
 EXHAUSTIVE = {"quick": True, "thorough": True}
 EXPLANATION = ("Theorems: representation invariant and list refinement for open, len, indexing, slice reads "
@@ -41,7 +42,10 @@ LEVEL_TEXT = ("Proof (Coq, no axioms) that a table refines the plain list `list(
               "relation, plain or compressed. The model is tied to delphin by kernel-evaluated "
               "correspondence over exhaustive short and random long histories on real directories; batch "
               "processing is checked by the oracle.")
-LEVEL_NOTE = ("Partial only in that TestSuite.process/FieldMapper is oracle-checked, not modelled. Four genuine defects were repaired by fix: commits (F3, F4, F5, F19) and the "
+LEVEL_NOTE = ("C10_process: batch processing with any buffer size leaves every relation holding its former rows "
+              "(none if cleared) followed by exactly the produced rows, in memory and on disk, outside a transaction, and a "
+              "later commit changes neither (model of _add_row and process over the same tables). Partial only in that the "
+              "FieldMapper and the processor are inputs of that model. Four genuine defects were repaired by fix: commits (F3, F4, F5, F19) and the "
               "model follows the repaired code.")
 TECHNIQUE = "Coq refinement proof (table -> list) + kernel-checked correspondence on real directories"
 DESIGN_REF = "DESIGN.md section 6, C10"
@@ -311,16 +315,37 @@ def _run_process(c):
         ts = itsdb.TestSuite(d)
         if c.get("pending"):
             ts['item'].extend([(c["n"] + 3 + j, 'p%d' % j) for j in range(c["pending"])])
-        ts.process(P(), buffer_size=c["bs"], gzip=c["gz"])
+        # the inputs of the model are recorded on the way (run-time wrappers in this driver process only):
+        # the rows _add_row appended, in order, and how often it committed
+        prod, ncommits = [], [0]
+        orig_add_row, orig_commit = itsdb._add_row, ts.commit
+
+        def add_row(ts_, name, data, buffer_size):
+            before = ncommits[0]
+            orig_add_row(ts_, name, data, buffer_size)
+            prod.append([name, list(ts_[name][-1].data), ncommits[0] > before])
+
+        def commit():
+            ncommits[0] += 1
+            return orig_commit()
+        affected = sorted(set(itsdb.FieldMapper(source=ts).affected_tables).intersection(ts.schema))
+        itsdb._add_row, ts.commit = add_row, commit
+        try:
+            ts.process(P(), buffer_size=c["bs"], gzip=c["gz"])
+        finally:
+            itsdb._add_row = orig_add_row
+            del ts.commit
         mem = {n: [list(r.data) for r in ts[n]] for n in ('parse', 'result', 'run', 'item')}
         intx = ts.in_transaction
+        disk0 = {n: [list(r.data) for r in itsdb.TestSuite(d)[n]] for n in ('parse', 'result', 'run', 'item')}
         try:
             ts.commit()
             err = None
         except Exception as e:
             err = type(e).__name__
         disk = {n: [list(r.data) for r in itsdb.TestSuite(d)[n]] for n in ('parse', 'result', 'run', 'item')}
-        return {"mem": mem, "intx": intx, "err": err, "disk": disk}
+        return {"mem": mem, "intx": intx, "err": err, "disk": disk, "disk0": disk0, "prod": prod,
+                "ncommits": ncommits[0], "affected": affected}
     finally:
         shutil.rmtree(d, ignore_errors=True)
 
@@ -376,6 +401,8 @@ def oracle(c):
         if r["err"]:
             return "commit after process raised %s" % r["err"]
         for n in want:
+            if r["disk0"][n] != want[n]:
+                return "after process table %s holds %r on disk, expected %r" % (n, r["disk0"][n], want[n])
             if r["disk"][n] != want[n]:
                 return "after process+commit table %s holds %r on disk, expected %r" % (n, r["disk"][n], want[n])
         return None
@@ -454,7 +481,35 @@ def _obs(s):
                cbool(s["intx"]), cbool(s["tx"]), cbool(s["gz"]), clist(s["disk"], _row)))
 
 
+def _rel(rows, gz):
+    if rows is None:
+        return "{| tx := None; gz := None; gz_newer := false |}"
+    if gz and rows:
+        return "{| tx := None; gz := Some %s; gz_newer := true |}" % clist(rows, _row)
+    return "{| tx := Some %s; gz := None; gz_newer := false |}" % clist(rows, _row)
+
+
+def _process_case(c, o):
+    n = c["n"]
+    inits = [("item", [[str(i), "s%d" % i] for i in range(n)], False,
+              [[str(n + 3 + j), "p%d" % j] for j in range(c.get("pending", 0))]),
+             ("parse", [["9", "9", "9", "9"]] if c["pre"] else None, c["gz"], []),
+             ("result", [["9", "0", "old"]] if c["pre"] else None, c["gz"], []),
+             ("run", None, False, [])]
+    return app("CProcess",
+               clist(inits, lambda x: "(%s, %s, %s)" % (cstr(x[0]), _rel(x[1], x[2]), clist(x[3], _row))),
+               clist(o["affected"], cstr),
+               clist(o["prod"], lambda x: "(%s, %s)" % (cstr(x[0]), _row(x[1]))),
+               cZ(c["bs"]), cbool(c["gz"]),
+               clist(["item", "parse", "result", "run"],
+                     lambda name: "{| p_name := %s; p_mem := %s; p_disk := %s |}" % (
+                         cstr(name), clist(o["mem"][name], _row), clist(o["disk0"][name], _row))),
+               cbool(o["intx"]), cnat(o["ncommits"]))
+
+
 def coq_case(c, o):
+    if c["k"] == "process" and "exc" not in o:
+        return _process_case(c, o)
     if c["k"] != "table" or "exc" in o:
         return None
     stored = c["stored"]
